@@ -288,7 +288,7 @@ class Base:
 
             return result
 
-        all_operations = operations.leaf_operations_symbolic_with_union
+        all_operations = operations.leaf_operations_symbolic
         # special case: if self is one of the args, we do not copy annotations over from self since child
         # annotations will be re-processed during AST creation.
         if annotations is None:
